@@ -14,7 +14,7 @@ THEOREMS = [("Sylvia.Thm.C05", "C05." + t) for t in
             ["main_loop", "top", "code_spec", "code_panic_sound", "code_spec_bytes", "gnai_eq", "vnc_eq", "should_end_eq", "init_eq", "upd_abs"]] + \
            [("Sylvia.Lemmas.Inter4", "Inter.nextIndex_ongoing"), ("Sylvia.Lemmas.Lex", "Lex.strictTotal"),
             ("Sylvia.Thm.C05Gen", "C05.nameList_sorted"), ("Sylvia.Thm.C05Gen", "C05.nameList_are_wire_names"),
-            ("Sylvia.Thm.C05Gen", "C05.nameList_length"), ("Sylvia.Thm.Obl.Published", "Obl.published_rule_is_wire_rule")] + \
+            ("Sylvia.Thm.C05Gen", "C05.nameList_length"), ("Sylvia.Thm.PublishedFn", "PublishedFn.serde_snake_case_eq"), ("Sylvia.Thm.Obl.Published", "Obl.published_rule_is_wire_rule")] + \
            [("Sylvia.Thm.Obl.Wrapper", "Obl.wrapper_forms"), ("Sylvia.Thm.Obl.Complete.C05", "Obl.extraction_complete_C05")]
 
 
@@ -76,6 +76,11 @@ def run(ctx):
     ctx.cov["trusted_base"] = ["Lean 4.33 kernel", "axioms: propext, Classical.choice, Quot.sound only (audited)",
                                "correspondence harness harness/rt (Rust) + svmodel driver", "python oracle for disjointness"]
     translate.regenerate()
+    # function translator: serde_snake_case of sylvia-derive (the rule behind the published name lists) -> Extracted/CasingFns.lean
+    casing_problems = rs2lean.regenerate("casing")
+    ctx.cov["function_translator_casing"] = {"source": "sylvia-derive/src/types/msg_variant.rs::serde_snake_case", "problems": casing_problems}
+    if casing_problems:
+        ctx.obligation_failed("function-translator(casing)", "; ".join(casing_problems)[:1500])
     # function translator: sylvia/src/utils.rs -> Extracted/UtilsFns.lean; the refinement theorems of Thm/C05Refine.lean
     # are re-checked against what it produced from the current source
     fn_problems = rs2lean.regenerate()
